@@ -38,7 +38,15 @@ func r171(c *Ctx, r *R) {
 		// no-op returns nil
 		for _, lf := range returnLeaves(add, 0) {
 			if isNilConst(lf.Val) {
-				r.Check(lf.GuardedBy(func(g Guard) bool { return gCall(g, true, "consensus/raft.find") }), "add:noop-present", lf.Pos, "nil without a log entry only when the peer is already present", "AddPeer returns nil without adding on a path where the peer is absent")
+				noop := lf.GuardedBy(func(g Guard) bool { return gCall(g, true, "consensus/raft.find") })
+				// ... or after the membership change went through
+				done := false
+				for _, ci := range av {
+					if ci.Block().Dominates(lf.Block) && lf.GuardedBy(func(g Guard) bool { return gCallErrNil(g, "hashicorp/raft.Future).Error", "hashicorp/raft.IndexFuture).Error") }) {
+						done = true
+					}
+				}
+				r.Check(noop || done, "add:noop-present", lf.Pos, "nil without a log entry only when the peer is already present", "AddPeer returns nil without adding on a path where the peer is absent")
 			}
 		}
 	}
